@@ -688,202 +688,6 @@ func refusalExpected(t *table, o opts, viaProc bool) (bool, string) {
 	return false, ""
 }
 
-// classify names the law that failed, by the structural cause visible in the input
-func classify(t *table, o opts, ending bool, encErr error) string {
-	withHeader := !o.withoutHeader || o.format == option.LTSV || o.format == option.JSON || o.format == option.JSONL
-	brk := hasAny(t, withHeader && o.format != option.LTSV, isBreak)
-	empties := hasAny(t, withHeader, func(s string) bool { return s == "" })
-	switch o.format {
-	case option.CSV, option.TSV:
-		switch {
-		case brk:
-			return "linebreak_in_cell"
-		case len(t.header) == 1 && empties:
-			return "single_column_empty"
-		}
-	case option.LTSV:
-		switch {
-		case hasAny(t, false, func(s string) bool { return strings.Contains(s, ":") }):
-			return "colon_in_value"
-		case len(t.header) == 1:
-			return "single_field_record"
-		case dupLabels(t.header):
-			return "duplicate_label"
-		}
-	case option.FIXED:
-		switch {
-		case brk:
-			return "linebreak_in_cell"
-		case encErr != nil && strings.Contains(encErr.Error(), "invalid delimiter position") && o.positions == nil:
-			return "empty_column"
-		case utf16Family(o.enc):
-			return "utf16_padding"
-		case o.positions == nil && o.lb == text.CR:
-			return "cr_line_break_automatic_positions"
-		}
-	case option.JSON, option.JSONL:
-		switch {
-		case len(t.rows) == 0:
-			return "empty_table_header"
-		case dupLabels(t.header):
-			return "duplicate_label"
-		case hasAny(t, true, func(s string) bool { return strings.HasSuffix(s, "\\") }):
-			return "trailing_backslash"
-		case hasLargeInt(t):
-			return "large_integer"
-		case o.format == option.JSONL && o.lb == text.CR:
-			return "cr_line_break"
-		case o.format == option.JSONL && ending:
-			return "blank_last_line"
-		}
-	}
-	if ending && o.lb == text.CR {
-		return "cr_ending_line_break"
-	}
-	if ending && utf16Family(o.enc) {
-		return "ending_line_break_not_transcoded"
-	}
-	if o.format == option.FIXED && o.positions == nil {
-		if hasAny(t, !o.withoutHeader, func(s string) bool { return trimBlanks(s) != strings.Join(strings.Fields(s), "") }) {
-			return "inner_blank_automatic_positions"
-		}
-	}
-	return "other"
-}
-
-func rtCase(g *hc.Gen, o *hc.Out, dir string) {
-	f := rtFormats[g.Intn(len(rtFormats))]
-	op := genOpts(g, f)
-	if f != option.JSON && f != option.JSONL {
-		op.enc = rtEncodings[g.Intn(len(rtEncodings))]
-	}
-	r := genRisk(g)
-	if g.Intn(2) == 0 {
-		r.breaks = false
-	}
-	simple := f == option.JSON || f == option.JSONL || g.Intn(3) != 0
-	t := genTable(g, r, simple, 50)
-	if op.enc == text.SJIS && g.Intn(4) != 0 {
-		// mostly tables Shift_JIS can carry
-		for !encodable(t, op.enc) {
-			r.odd = false
-			t = genTable(g, r, true, 50)
-			for i := range t.rows {
-				for j := range t.rows[i] {
-					if s, ok := t.rows[i][j].val.(*value.String); ok && !encodable(&table{header: []string{s.Raw()}}, op.enc) {
-						t.rows[i][j] = mkCell(value.NewString("日本 ｱ"))
-					}
-				}
-			}
-		}
-	}
-	if f == option.FIXED && g.Intn(3) == 0 {
-		op.positions = genPositions(g, t, op)
-	}
-	path := "direct"
-	var data []byte
-	var encErr error
-	ending := false
-	if g.Intn(10) < 7 {
-		if d, e, ok := writeViaProc(dir, t, op); ok {
-			path, data, encErr = "proc", d, e
-			ending = !op.strip
-		}
-	}
-	if path == "direct" {
-		data, encErr = realEncode(t, op)
-		if encErr == query.DataEmpty {
-			data = nil
-		}
-	}
-	name := fmtName(f)
-	o.Count("rt:" + name + ":" + path)
-	o.Count("rt:enc:" + encName(op.enc))
-	replay := func(extra map[string]interface{}) map[string]interface{} {
-		m := map[string]interface{}{"format": name, "options": op.sig(), "path": path, "header": t.header, "rows": rowsForReplay(t), "written_hex": hex.EncodeToString(data)}
-		for k, v := range extra {
-			m[k] = v
-		}
-		return m
-	}
-	refuse, why := refusalExpected(t, op, path == "proc")
-	sigBase := fmt.Sprintf("rt|%s|%s|%s|%s", op.sig(), path, textClasses(t), dimClass(t))
-	if encErr != nil && encErr != query.DataEmpty {
-		o.Count("rt:" + name + ":refused")
-		if len(data) > 0 {
-			lawFail(o, "refuse:"+name+":partial_output", replay(map[string]interface{}{"error": firstLine(encErr.Error())}))
-		}
-		if !refuse {
-			lawFail(o, "roundtrip:"+name+":"+refusedName(classify(t, op, ending, encErr)), replay(map[string]interface{}{"error": firstLine(encErr.Error())}))
-		}
-		o.NonTrivial(sigBase + "|refused:" + why)
-		o.Case("c02.nop", "ok")
-		return
-	}
-	if encErr == query.DataEmpty || (refuse && (why == "no_rows" || why == "no_header_no_rows") && len(data) == 0) {
-		// "data empty": nothing is written at all (not an error on the command line)
-		o.Count("rt:" + name + ":data_empty")
-		o.NonTrivial(sigBase + "|dataempty")
-		o.Case("c02.nop", "ok")
-		return
-	}
-	if refuse {
-		// written although the format cannot spell it: the read-back below decides whether it matters
-		o.Count("rt:" + name + ":unspellable_written:" + why)
-	}
-	v, lerr := realLoad(dir, "rt"+fmtExt(f), data, op, op.enc, false)
-	exp := expected(t, op)
-	fail := ""
-	var got *dtable
-	if lerr != nil {
-		fail = "load error: " + firstLine(lerr.Error())
-		if isFatal(lerr) {
-			o.Count("rt:" + name + ":fatal_on_load")
-		}
-	} else {
-		got = fromView(v)
-		if !got.equal(exp) {
-			fail = "different table"
-		}
-	}
-	if fail != "" {
-		extra := map[string]interface{}{"failure": fail, "expected": exp.String()}
-		if got != nil {
-			extra["loaded"] = got.String()
-		}
-		law := classify(t, op, ending, nil)
-		if f == option.FIXED && op.positions == nil && (law == "other" || law == "inner_blank_automatic_positions") {
-			// is it only the automatic detection of the column positions (a heuristic) that fails?
-			// read again with the positions the writer used (Measure + one inserted blank per column)
-			xo := op
-			pos := 0
-			for j := range t.header {
-				w := 0
-				if !op.withoutHeader {
-					w = text.ByteSize(t.header[j], op.enc)
-				}
-				for _, row := range t.rows {
-					w = max(w, text.ByteSize(row[j].text, op.enc))
-				}
-				if j > 0 {
-					pos++
-				}
-				pos += w
-				xo.positions = append(xo.positions, pos)
-			}
-			if v2, e2 := realLoad(dir, "rt"+fmtExt(f), data, xo, op.enc, false); e2 == nil && fromView(v2).equal(exp) {
-				law = "automatic_positions"
-			}
-		}
-		lawFail(o, "roundtrip:"+name+":"+law, replay(extra))
-		o.NonTrivial(sigBase + "|fail")
-	} else {
-		o.NonTrivial(sigBase + "|ok")
-		o.Count("rt:" + name + ":ok")
-	}
-	o.Case("c02.nop", "ok")
-}
-
 func hasLargeInt(t *table) bool {
 	for _, r := range t.rows {
 		for _, c := range r {
@@ -893,13 +697,6 @@ func hasLargeInt(t *table) bool {
 		}
 	}
 	return false
-}
-
-func refusedName(c string) string {
-	if c == "other" {
-		return "refused_spellable"
-	}
-	return c
 }
 
 func rowsForReplay(t *table) [][]string {
